@@ -399,13 +399,29 @@ pub fn run(tier: Tier, replay: Option<&str>) {
                         }
                         // sequences: one or two prior command downlinks, then a reduced judged set
                         let dng = dangerous(region);
-                        let judged: Vec<&Cmd> = singles.iter().enumerate().filter(|(i, _)| i % if th { 11 } else { 97 } == 0).map(|x| x.1).collect();
+                        let mut judged: Vec<&Cmd> = singles.iter().enumerate().filter(|(i, _)| i % if th { 11 } else { 97 } == 0).map(|x| x.1).collect();
+                        // always judge a redefinition of channel 3 (the channel the prior commands create and remap)
+                        let redefine: Vec<Cmd> = [400_000u32, 600_000]
+                            .iter()
+                            .map(|d| {
+                                let fb = cmds::freq_bytes(cmds::freqs(region)[3] + d);
+                                Cmd { name: "NewChannelReq-redefine3".into(), bytes: vec![0x07, 3, fb[0], fb[1], fb[2], 0x50] }
+                            })
+                            .collect();
+                        if !is_fixed(region) {
+                            judged.extend(redefine.iter());
+                        }
                         for (_, p1) in &dng {
                             for c in &judged {
                                 cases.push(mk(vec![p1.clone()], c, false, false));
                             }
-                            for (_, p2) in dng.iter().take(if th { dng.len() } else { 4 }) {
-                                for c in judged.iter().step_by(if th { 5 } else { 1 }) {
+                            for (_, p2) in dng.iter() {
+                                for (i, c) in judged.iter().enumerate() {
+                                    // (thorough judges a larger set after one prior; after two priors every fifth
+                                    // of it plus the redefinitions)
+                                    if th && i % 5 != 0 && !c.name.starts_with("NewChannelReq-redefine") {
+                                        continue;
+                                    }
                                     cases.push(mk(vec![p1.clone(), p2.clone()], c, false, false));
                                 }
                             }
